@@ -374,43 +374,43 @@ pub fn run(tier: Tier) -> Report {
                 break;
             }
             // expand every frontier node by every symbol; batches run inside one shuttle execution each
-            let batch = 64usize;
+            let batch = 4usize;
             let nb = (frontier.len() + batch - 1) / batch;
             let results: Mutex<Vec<(Vec<usize>, u64)>> = Mutex::new(vec![]);
-            let frontier_ref = &frontier;
-            let alpha_ref = &alpha;
-            par_for(nb, 1, |bi| {
+            let frontier_seqs: Arc<Vec<Vec<usize>>> = Arc::new(frontier.iter().map(|n| n.seq.clone()).collect());
+            let alpha_arc: Arc<Vec<Op>> = Arc::new(alpha.clone());
+            let (fs, al) = (frontier_seqs.clone(), alpha_arc.clone());
+            let outs = sched::run_jobs(nb, move |bi| {
                 let lo = bi * batch;
-                let hi = (lo + batch).min(frontier_ref.len());
-                let seqs: Vec<Vec<usize>> = frontier_ref[lo..hi].iter().map(|n| n.seq.clone()).collect();
-                let alpha2 = alpha_ref.clone();
-                let res = in_shuttle(move || {
-                    let mut out: Vec<(Vec<usize>, Result<u64, (String, String)>)> = vec![];
-                    for seq in &seqs {
-                        for (ai, a) in alpha2.iter().enumerate() {
-                            let mut store: Guarded<HStore> = Guarded::new(TrackStoreBuilder::new(shards).default_attributes(HAttrs::default()).metric(HMetric::default()).notifier(HNotifier).build());
-                            let mut model = Model::new();
-                            let mut ok = true;
-                            for s in seq {
-                                // the prefix was validated when it was a frontier transition; a failure here is a
-                                // replay divergence
-                                if step(&mut store, &mut model, &alpha2[*s], shards).is_err() {
-                                    ok = false;
-                                    break;
-                                }
+                let hi = (lo + batch).min(fs.len());
+                let mut out: Vec<(Vec<usize>, Result<u64, (String, String)>)> = vec![];
+                for seq in &fs[lo..hi] {
+                    for (ai, a) in al.iter().enumerate() {
+                        let mut store: Guarded<HStore> = Guarded::new(TrackStoreBuilder::new(shards).default_attributes(HAttrs::default()).metric(HMetric::default()).notifier(HNotifier).build());
+                        let mut model = Model::new();
+                        let mut ok = true;
+                        for s in seq {
+                            // the prefix was validated when it was a frontier transition; a failure here is a
+                            // replay divergence
+                            if step(&mut store, &mut model, &al[*s], shards).is_err() {
+                                ok = false;
+                                break;
                             }
-                            let mut full = seq.clone();
-                            full.push(ai);
-                            if !ok {
-                                out.push((full, Err(("harness/replay-diverged".into(), "prefix failed on replay".into()))));
-                                continue;
-                            }
-                            let r = step(&mut store, &mut model, a, shards);
-                            out.push((full, r.map(|_| canon(&model))));
                         }
+                        let mut full = seq.clone();
+                        full.push(ai);
+                        if !ok {
+                            out.push((full, Err(("harness/replay-diverged".into(), "prefix failed on replay".into()))));
+                            continue;
+                        }
+                        let r = step(&mut store, &mut model, a, shards);
+                        out.push((full, r.map(|_| canon(&model))));
                     }
-                    out
-                });
+                }
+                out
+            });
+            for (bi, res) in outs.into_iter().enumerate() {
+                let lo = bi * batch;
                 match res {
                     Ok(v) => {
                         let mut keep = vec![];
@@ -418,21 +418,23 @@ pub fn run(tier: Tier) -> Report {
                             match r {
                                 Ok(h) => keep.push((seq, h)),
                                 Err((key, what)) => {
-                                    let first = violated_keys.lock().unwrap().insert(format!("{key}"));
-                                    let _ = first;
+                                    if key.starts_with("harness/") {
+                                        machinery_error(&format!("C09: {key}: {what}"));
+                                    }
+                                    violated_keys.lock().unwrap().insert(key.clone());
                                     rep.violation(Violation {
                                         key,
                                         what,
-                                        replay: json!({"shards":shards,"ops":seq.iter().map(|i| format!("{:?}", alpha_ref[*i])).collect::<Vec<_>>()}),
+                                        replay: json!({"shards":shards,"ops":seq.iter().map(|i| format!("{:?}", alpha[*i])).collect::<Vec<_>>()}),
                                     });
                                 }
                             }
                         }
                         results.lock().unwrap().extend(keep);
                     }
-                    Err(e) => rep.violation(Violation { key: "store/panic-or-deadlock".into(), what: e, replay: json!({"shards":shards,"batch_first_seq":frontier_ref[lo].seq.iter().map(|i| format!("{:?}", alpha_ref[*i])).collect::<Vec<_>>()}) }),
+                    Err(e) => rep.violation(Violation { key: "store/panic-or-deadlock".into(), what: e, replay: json!({"shards":shards,"batch_first_seq":frontier_seqs[lo].iter().map(|i| format!("{:?}", alpha[*i])).collect::<Vec<_>>()}) }),
                 }
-            });
+            }
             let mut res = results.into_inner().unwrap();
             res.sort();
             transitions += res.len() as u64;
